@@ -256,7 +256,7 @@ End Cmp.
 (** EVALUATOR arithmetic for the correspondence check.  Exact rational evaluation of the recursions explodes
     (every division multiplies denominators; depth ~25 for 4 layers), so the generic definitions above are run
     over [QF]: rationals rounded (toward -oo on the mantissa) to [prec] significant bits after every operation --
-    a binary floating-point arithmetic with 2^-128 relative error per operation, inside Coq, no Axiom.
+    a binary floating-point arithmetic with 2^-128 relative error per operation, inside Coq, with nothing postulated.
     The exact instance [QO] is still used where the comparison is exact (LayeredSphere.r). *)
 Definition prec : Z := 128.
 Definition qround (q : Q) : Q :=
